@@ -65,6 +65,11 @@ CLAIMED = {
   text='Decides on a generated family (19 macro definitions x 49 invocation forms, 21 redefinition pairs, 18 directive forms; finite, not exhaustive): the expanded token sequence (kinds and spellings incl. stringification) equals the reference expander; ill-formed invocations are diagnosed; redefinitions are accepted iff identical; unimplemented directives and ## are rejected; at end of input no macro is left hidden and the expansion depth is 0. Cases C11 leaves unspecified (invocation completed beyond the rescanned list) are excluded from generation.',
   note='Trusts clang 14 front end, lib/eai.py, the array/scan models and the reference expander in props/c12.py. One known finding (extra empty trailing argument accepted).',
   design='5/C12'),
+ 'C11': dict(
+  technique='abstract interpretation of scan.c:nextchar with a symbolic character stream (path invariant: line counter advances once per consumed new-line, also inside splices); E-AI tables for token positions (real nextchar + scankind on scripted input), #line / line-marker handling and the location used by string-literal decode errors; AST rule on every error() call',
+  text='Decides: on every path of nextchar up to 4 (quick) / 5 (thorough) reads the line counter advances exactly once per consumed new-line and the column restarts; token positions for 13 layouts of white space / comments / splices; the presumed location set by 9 forms of #line and line markers and that it is applied after the directive line; the diagnostic header format; that all 200+ error() calls are given a token/scanner location and that decode errors in concatenated literals use the piece location. Presumed-location arithmetic for arbitrary marker sequences is NOT decided; new-line tokens themselves carry the following line (observed quirk, not judged).',
+  note='Trusts clang 14 front end, lib/eai.py, harness models shared with props/c12.py and props/c14.py.',
+  design='5/C11'),
  'C01': dict(
   technique='abstract interpretation (partial evaluation of the lowering functions over the static type/operator descriptor domain) + AST table extraction vs C11/QBE oracle tables',
   text='Decides structural clauses only: the instruction-selection, conversion, load/store, truthiness and bit-field shift tables that every compiled program is lowered through are extracted from the current source by an abstract interpreter and compared exhaustively (over the finite descriptor domain) with oracle tables written from C11 and the QBE manual; sibling switches are checked for exhaustiveness. Semantic equivalence of emitted IL for arbitrary programs is NOT decided.',
